@@ -1172,6 +1172,7 @@ class ApiFn(Fn):
         self.uses_ev = False
         self.tmpn = 0
         self.rename = {}
+        self.locals = []
         self.new_ids = []
         self.char_arrays = set()
         self.idx_mode = False
@@ -1522,6 +1523,15 @@ class ApiFn(Fn):
             if self.has_break(body_) or self.has_continue(body_) or self.C(cond_) != "false":
                 raise Unsupported("do-while that is not `do {...} while (false)`")
             return self.S([body_] + rest, k)
+        if kind == "DeclStmt":
+            for v0 in n["inner"]:
+                if v0.get("kind") == "VarDecl" and v0.get("storageClass") == "static":
+                    raise Unsupported("static local %s: state kept between calls is outside the fragment" % v0.get("name"))
+                if v0.get("kind") == "VarDecl":
+                    q0 = (v0.get("type", {}).get("desugaredQualType") or v0.get("type", {}).get("qualType", ""))
+                    if (re.search(r"\[\d+\]$", q0.strip()) or q0.replace("const ", "").strip() in ("gf_poly", "struct gf_poly")) \
+                            and v0["name"] not in self.locals:
+                        self.locals.append(v0["name"])
         if kind == "DeclStmt" and len(n["inner"]) == 1 and n["inner"][0]["kind"] == "VarDecl":
             v = n["inner"][0]
             name = self.rename.get(v["name"], v["name"])
@@ -1940,6 +1950,8 @@ def api_main(repo, out, base_info):
                 f.idx_spec = IDX_MODE[fn]
             text = f.translate(params, outs, rty)
             parts.append(text)
+            parts.append("(* the automatic arrays and structs %s declares (those of the functions inlined into it included) *)\n"
+                         "Definition locals_%s : list string := [%s]." % (fn, fn, "; ".join('"%s"%%string' % x for x in f.locals)))
             register_sig(repo, src, fn, f, params, outs, gl, rty)
             SIGS[fn].update(SIG_EXTRA.get(fn, {}))
             known[fn] = list(f.extra_params) + gl
